@@ -298,6 +298,44 @@ def reach_tiling(n: int, c: int, c_none: bool) -> int:
     return tiling_check(n, c, c_none)
 
 
+# a chunk size that is no positive integer (round 6): refused, or the rows are still all there - never dropped silently
+
+def tiling_nonpos_check(n, c):
+    """The real wrapper (dict source over the numpy stub, real load_chunk with its own range checks) asked for chunks of
+    c <= 0 rows: refused, or every row 0..n-1 comes out once, in order."""
+    nps.reset()
+    (src, mapping, W) = make_source(0, n, 2, 7, '<', '<', 3)
+    w = W(src, mapping)
+    try:
+        rows = list(w.make_chunked_generator(c))
+    except (ValueError, ZeroDivisionError, TypeError, RuntimeError, IndexError):
+        return 0                                  # refused: fail-closed
+    if len(rows) != n:
+        return 4                                  # accepted, and rows are missing (or repeated)
+    for k in range(n):
+        r = rows[k]
+        f = r.arr.fields['A']
+        if f.column != 'colA' or f.a + r.i != k:
+            return 1
+    return 0
+
+
+def ob_tiling_nonpos(n: int, c: int) -> int:
+    """
+    pre: 1 <= n <= 40 and -60 <= c <= 0
+    post: _ == 0
+    """
+    return tiling_nonpos_check(n, c)
+
+
+def reach_tiling_nonpos(n: int, c: int) -> int:
+    """
+    pre: 1 <= n <= 40 and -60 <= c <= 0
+    post: _ != 0
+    """
+    return tiling_nonpos_check(n, c)
+
+
 # ----------------------------------------------------------------------------------------- frame-data record body
 
 def fdata_body_check(kind, frame_number, dtA, dtB, ordA, ordB, wB, origin):
